@@ -77,6 +77,21 @@ def loads_variant(fast_json, json_h, text, how):
         return {"exc": type(ex).__name__}
 
 
+class FormattingHandler(__import__("logging").Handler):
+    """what a host's handler does: format every record (a NullHandler never does, which hides %-style argument
+    mismatches and failing __str__/__repr__ of arguments)"""
+
+    def emit(self, record):
+        self.format(record)
+
+    def handleError(self, record):  # a formatting failure is the library's bug: make it visible to the harness
+        import sys
+        FormattingHandler.errors.append(repr(sys.exc_info()[1])[:200])
+
+
+FormattingHandler.errors = []
+
+
 class debug_logging:
     """as a host application with logging configured at DEBUG: every logger.debug(...) branch is live; records go to
     a NullHandler"""
@@ -86,7 +101,7 @@ class debug_logging:
 
         root = logging.getLogger()
         self.prev = (root.manager.disable, root.level, list(root.handlers))
-        root.handlers[:] = [logging.NullHandler()]
+        root.handlers[:] = [FormattingHandler()]
         root.setLevel(logging.DEBUG)
         logging.disable(logging.NOTSET)
 
@@ -104,6 +119,22 @@ def maybe_debug(i, every):
     import contextlib
 
     return debug_logging() if every and i % every == 0 else contextlib.nullcontext()
+
+
+def mutate_deep(x, depth=0):
+    """edit every container reachable from x in place (what a consumer of a decoded message may do)"""
+    if isinstance(x, dict):
+        for k in list(x):
+            mutate_deep(x[k], depth + 1)
+        if x:
+            x.pop(next(iter(x)))
+        x["_meta"] = {"edited": depth}
+    elif isinstance(x, list):
+        for y in x:
+            mutate_deep(y, depth + 1)
+        x.append({"edited": depth})
+        if len(x) > 1:
+            x.pop(0)
 
 
 def reuse_check(fast_json, v):
@@ -132,6 +163,22 @@ def reuse_check(fast_json, v):
                 a["sentinel"] = 1
             b = fast_json.loads(t1)
             out["loads_independent"] = (b == b0) and (b is not a)
+            # ... and with every NESTED container of the first results edited, for str and bytes input alike
+            for inp in (t1, t1.encode("utf-8"), t1):
+                first = fast_json.loads(inp)
+                mutate_deep(first)
+                second = fast_json.loads(inp)
+                if second != b0:
+                    out["loads_independent"] = False
+                mutate_deep(second)
+            if fast_json.loads(t1) != b0:
+                out["loads_independent"] = False
+            # the object handed to dumps is edited deep inside between two encodes
+            w2 = copy.deepcopy(v)
+            mutate_deep(v)
+            mutate_deep(w2)
+            if fast_json.dumps(v) != fast_json.dumps(w2):
+                out["dumps_sees_mutation"] = False
         t = fast_json.dumps(v)
         out["dumps_repeatable"] = fast_json.dumps(v) == t
         # a pretty print, failing encodes and failing decodes (the same failure 1..4 times) in between
@@ -151,6 +198,31 @@ def reuse_check(fast_json, v):
     except Exception as ex:  # noqa: BLE001
         out["exc"] = type(ex).__name__
     return out
+
+
+def churn(fast_json):
+    """a long session: 1500 distinct short documents (more than any cache holds), each decoded, edited and decoded
+    again later, then the first ones once more; and the 1000th encode of one object"""
+    import json as stdjson
+
+    bad = []
+    docs = [stdjson.dumps({"jsonrpc": "2.0", "id": i, "result": {"content": [{"n": i}], "_meta": {"k": [i]}}}) for i in range(1500)]
+    for rnd in range(2):
+        for i, t in enumerate(docs):
+            a = fast_json.loads(t if i % 2 else t.encode("utf-8"))
+            if a != stdjson.loads(t):
+                bad.append(["loads", rnd, i])
+            mutate_deep(a)
+    for i in (0, 1, 2, 1499):
+        if fast_json.loads(docs[i]) != stdjson.loads(docs[i]):
+            bad.append(["loads-again", i])
+    obj = {"a": [1, {"b": None}], "c": "x"}
+    t0 = fast_json.dumps(obj)
+    for i in range(1000):
+        if fast_json.dumps(obj) != t0:
+            bad.append(["dumps", i])
+            break
+    return {"bad": bad[:5], "log_format_errors": FormattingHandler.errors[:3]}
 
 
 def measure_limits(fast_json):
@@ -244,6 +316,8 @@ def main():
                     ans["out"].append(loads_variant(fast_json, json_h, it["t"], it.get("how", "str")))
         elif op == "reuse":
             ans = {"out": [reuse_check(fast_json, json_h.to_py(t)) for t in req["values"]]}
+        elif op == "churn":
+            ans = churn(fast_json)
         elif op == "limits":
             ans = measure_limits(fast_json)
         elif op == "dumps":
